@@ -337,7 +337,7 @@ impl Property for C13 {
         if limit == needed_exact {
             ctx.label("limit=needed");
         }
-        if limit + 1 == needed_exact {
+        if limit.checked_add(1) == Some(needed_exact) {
             ctx.label("limit=needed-1");
         }
         let int_coeffs = terms.iter().all(|(_, c)| c.fract() == 0.0);
